@@ -19,3 +19,4 @@ import SpoxModel.Props.C12
 #print axioms C12.builder_reads_known
 #print axioms C12.cache_stale_counterexample
 #print axioms C12.key_has_results_and_arguments
+#print axioms C12.no_class_level_mutable_state
